@@ -150,6 +150,10 @@ void res_infra(const char *fmt, ...) {
 	res_printf("E %s\n", tmp);
 	res_finish();
 }
+void res_progress(long idx) {
+	char b[32]; int n = snprintf(b, sizeof b, "P %ld\n", idx);
+	if (write(child_fd, b, (size_t) n) < 0) { }
+}
 void res_finish(void) {
 	cappend("D\n", 2);
 	size_t o = 0;
@@ -167,4 +171,10 @@ const char *res_line(const run_res_t *r, char tag, int k) {
 		p = e ? e + 1 : NULL;
 	}
 	return NULL;
+}
+
+long res_last_progress(const run_res_t *r) {
+	long last = -1; const char *p = r->text;
+	while (p && *p) { if (p[0] == 'P' && p[1] == ' ') last = atol(p + 2); const char *e = strchr(p, '\n'); p = e ? e + 1 : NULL; }
+	return last;
 }
